@@ -125,6 +125,11 @@ class Func:
         self.defaults = defaults or []
         self.kwdefaults = kwdefaults or {}
         self.spec = spec
+        self.owner = None
+        if name and '.' in name:
+            parts = name.split('.')
+            if len(parts) >= 2 and parts[-2] != '<locals>':
+                self.owner = parts[-2]
 
 
 class BoundMethod:
@@ -255,12 +260,19 @@ def as_bool_term(c):
 
 
 class Frame:
-    def __init__(self, locals_, parent, globs, fname=''):
+    def __init__(self, locals_, parent, globs, fname='', owner=None):
         self.locals = locals_
         self.parent = parent
         self.globs = globs
         self.fname = fname
         self.nonlocals = set()
+        # class whose body lexically contains the code (private name mangling)
+        self.owner = owner if owner is not None else (parent.owner if parent is not None else None)
+
+    def mangle(self, name):
+        if self.owner and name.startswith('__') and not name.endswith('__'):
+            return '_' + self.owner.lstrip('_') + name
+        return name
 
     def lookup(self, name):
         f = self
@@ -1062,7 +1074,7 @@ class Interp:
                 self.assign(e, x, fr)
         elif isinstance(t, ast.Attribute):
             base = self.eval(t.value, fr)
-            self.setattr(base, t.attr, v)
+            self.setattr(base, fr.mangle(t.attr), v)
         elif isinstance(t, ast.Subscript):
             base = self.eval(t.value, fr)
             idx = self.eval(t.slice, fr)
@@ -1554,7 +1566,7 @@ class Interp:
 
     def ex_Attribute(self, e, fr):
         base = self.eval(e.value, fr)
-        return self.getattr(base, e.attr)
+        return self.getattr(base, fr.mangle(e.attr))
 
     def getattr(self, base, name):
         if isinstance(base, Opt):
@@ -1623,6 +1635,9 @@ class Interp:
         if isinstance(base, (SList, SDict, tuple, frozenset, dict, list)):
             return BuiltinMethod(base, name)
         if isinstance(base, (types.ModuleType, type)) or callable(base) or True:
+            gm0 = self.p.engine.models.get(('getattr', id(base), name))
+            if gm0 is not None:
+                return gm0.fn(self, [base], {})
             if not isinstance(base, (types.ModuleType, type)):
                 for k in type(base).__mro__:
                     mm = self.p.engine.models.get(('method', k, name))
@@ -1988,7 +2003,7 @@ class Interp:
                     raise PyRaise(ExcVal(TypeError))
         if a.kwarg is not None:
             loc[a.kwarg.arg] = SDict(extra)
-        fr = Frame(loc, f.closure, f.globs, f.name)
+        fr = Frame(loc, f.closure, f.globs, f.name, owner=getattr(f, 'owner', None))
         sub = self
         if f.spec and not self.spec:
             sub = Interp(self.p, spec=True)
